@@ -24,6 +24,7 @@ import Dawgs.Proofs.C01S2Sound
 import Dawgs.Proofs.C01ChainSound
 import Dawgs.Proofs.C01Count
 import Dawgs.Proofs.C01CountHop
+import Dawgs.Proofs.C01Limit
 namespace Dawgs.C01.Props
 open Dawgs Dawgs.Sql Dawgs.C01.Proofs
 
@@ -349,6 +350,84 @@ theorem c01_partial_S5 (flipOf : S2.Query → Bool) (flipCh : Ch.Query → Bool)
     · rcases hsql with hsql | ⟨w, hsql⟩
       · rw [hsql] at hm; cases hm
       · rw [hsql] at hm; cases hm
+
+/-! ### stage S2L: one directed hop with LIMIT k, no ORDER BY, no SKIP — `tr6F` = all proved stages
+
+openCypher does not say WHICH k rows such a query returns. `Cy.eval` refuses it (`nondeterministic-limit-inside-ties`) exactly when the
+choice is not forced (`limit_refused_iff`); the soundness statement is therefore made against the rows of the BASE query (no LIMIT). -/
+
+theorem ofCyLimit2_sound (q : Cy.Query) (s : S2L.Query) (h : ofCyLimit2 q = some s) : s.toCy = q := Proofs.ofCyLimit2_sound q s h
+
+theorem tr6_some (flipOf : S2.Query → Bool) (flipCh : Ch.Query → Bool) (flipN : S2n.Query → Bool) (fast prune push : Bool) (km : KindMap) (q : Cy.Query)
+    (st : Stmt) (ps : List (String × Val)) (h : tr6F flipOf flipCh flipN fast prune push km q = some (st, ps)) :
+    (ofCyLimit2 q = none ∧ tr5F flipOf flipCh flipN fast prune km q = some (st, ps)) ∨
+    (∃ s : S2L.Query, ofCyLimit2 q = some s ∧ s.toCy = q ∧ s.trWith km (flipOf s.base) prune push = some st ∧ ps = []) :=
+  Proofs.tr6_some flipOf flipCh flipN fast prune push km q st ps h
+
+/-- `limit_refused_iff`: the reference semantics refuses MATCH (a)-[r]->(b) [WHERE …] RETURN items LIMIT k exactly when the LIMIT would have
+to choose among the rows of the base query (0 < k < number of base rows); otherwise its result is the first k (all, or none) of them -/
+theorem limit_refused_iff (km : KindMap) (g : Graph) (hok : GraphOK2 km g) (s : S2L.Query) (hwf : s.base.wf = true) :
+    ∃ names rows, Cy.eval .none g s.base.toCy = .ok (names, rows) ∧
+      Cy.eval .none g s.toCy = (if 0 < s.k ∧ s.k < rows.length then .error "nondeterministic-limit-inside-ties" else .ok (names, rows.take s.k)) := by
+  have hn : ∀ n ∈ g.nodes, g.node? n.id = some n := find_of_nodup g.nodes hok.nodup
+  have he : ∀ e ∈ g.edges, g.edge? e.id = some e := fun e hm => hok.edge? e hm
+  refine ⟨_, _, cy_side2 g s.base hwf hn he, ?_⟩
+  rw [cy_side2_lim g s hwf hn he, List.length_map, List.map_take]
+
+/-- `tr_sound_S2L`: MATCH (a)-[r]->(b) [WHERE single-variable conjuncts] RETURN items LIMIT k — for every graph with `GraphOK2`, both join
+orders, the hop frame pruned or complete, the LIMIT also written into the hop frame (limit pushdown) or not: whenever the statement
+evaluates to a table `t`, the BASE query (without LIMIT) has a reference result `r`, and
+  * the client-visible rows of `t` are a sub-bag of the rows of `r`,
+  * `t` has exactly min(k, number of rows of r) rows,
+  * the rows of `t` are the first k of a list that depends on the join order only and is a permutation of the rows of `r`. -/
+theorem tr_sound_S2L (km : KindMap) (g : Graph) (hok : GraphOK2 km g) (s : S2L.Query) (flip prune push : Bool) (st : Stmt)
+    (h : s.trWith km flip prune push = some st) (t : Table) (ht : Sql.eval (encode km g) st [] = .ok t) :
+    ∃ r, Cy.eval .none g s.base.toCy = .ok r ∧ SubBag (sqlRows t) (cyRows g km r) ∧ t.rows.length = min s.k r.2.length ∧
+      sqlRows t = ((hopM g s.base flip).take s.k).map (rowOf2 km g s.base) ∧
+      ((hopM g s.base flip).map (rowOf2 km g s.base)).Perm (cyRows g km r) := by
+  obtain ⟨r, names, rows, hr, hsql, hrows, hperm, hsub, hlen⟩ := s2l_sound km g hok s flip prune push st h
+  rcases hsql with hsql | ⟨w, hsql⟩
+  · rw [hsql] at ht; cases ht; exact ⟨r, hr, hsub, hlen, hrows, hperm⟩
+  · rw [hsql] at ht; cases ht
+
+/-- the statement never ends in an SQL run-time / type / name error of the model (only `unmodelled` is possible besides a table) -/
+theorem tr_noerr_S2L (km : KindMap) (g : Graph) (hok : GraphOK2 km g) (s : S2L.Query) (flip prune push : Bool) (st : Stmt)
+    (h : s.trWith km flip prune push = some st) (m : String) (hm : Sql.eval (encode km g) st [] = .error (.runtime m)) : False := by
+  obtain ⟨r, names, rows, hr, hsql, _⟩ := s2l_sound km g hok s flip prune push st h
+  rcases hsql with hsql | ⟨w, hsql⟩
+  · rw [hsql] at hm; cases hm
+  · rw [hsql] at hm; cases hm
+
+/-- `tr_sound_S2L_forced`: when the reference semantics DOES define the result of the LIMIT query itself (k = 0, or k at least the number
+of base rows), the statement's rows agree with it as a bag — the contract of `C01_bag_for` on this stage -/
+theorem tr_sound_S2L_forced (km : KindMap) (g : Graph) (hok : GraphOK2 km g) (s : S2L.Query) (hwf : s.base.wf = true) (flip prune push : Bool) (st : Stmt)
+    (h : s.trWith km flip prune push = some st) (t : Table) (ht : Sql.eval (encode km g) st [] = .ok t)
+    (r' : List String × List (List Cy.CVal)) (hr' : Cy.eval .none g s.toCy = .ok r') : AgreeBag km g t r' := by
+  obtain ⟨r, hr, _, _, hrows, hperm⟩ := tr_sound_S2L km g hok s flip prune push st h t ht
+  obtain ⟨names, rows, hb, hl⟩ := limit_refused_iff km g hok s hwf
+  rw [hb] at hr; cases hr
+  rw [hl] at hr'
+  unfold AgreeBag
+  rw [hrows]
+  have hlenM : (hopM g s.base flip).length = rows.length := by
+    have := hperm.length_eq
+    simpa [cyRows] using this
+  split at hr'
+  · cases hr'
+  · rename_i hk
+    cases hr'
+    by_cases h0 : s.k = 0
+    · simp [h0, cyRows]
+    · have hge : rows.length ≤ s.k := by
+        have : ¬ (s.k < rows.length) := fun hh => hk ⟨by omega, hh⟩
+        omega
+      rw [List.take_of_length_le (by omega), List.take_of_length_le hge]
+      exact hperm
+
+/-- the stage is inhabited: MATCH (a)-[r]->(b) RETURN a.name LIMIT 2 is recognised as itself and translated, with and without the pushdown -/
+def exLimQ : S2L.Query := ⟨⟨"a", "r", "b", [], [], [], [], [.prop .a "name" none]⟩, 2⟩
+example : (ofCyLimit2 exLimQ.toCy == some exLimQ) = true := by decide +kernel
+example : (exLimQ.trWith [("K", 1)] false true true).isSome = true ∧ (exLimQ.trWith [("K", 1)] false true false).isSome = true := by decide +kernel
 
 theorem ofCyCount2_sound (q : Cy.Query) (s : S2n.Query) (h : ofCyCount2 q = some s) : s.toCy = q := Proofs.ofCyCount2_sound q s h
 
